@@ -1,12 +1,14 @@
 (* C19 - Serialised systems and ballot files reload to equivalent objects.
    Property theorems only.  Models: Model/Persist.v (persist.py value codec, from_dict, the
-   effect of json.dumps/json.loads), Model/BallotFile.v (BLT and STV writers/parsers at token
-   level); proofs: Proofs/Persist_proofs.v, Proofs/BallotFile_proofs.v.
+   effect of json.dumps/json.loads), Model/BallotFile.v (BLT writer/parser at token level),
+   Model/StvFile.v (STV writer/parser at character level); proofs: Proofs/Persist_proofs.v,
+   Proofs/BallotFile_proofs.v, Proofs/StvFile_proofs.v.
    The persist theorems hold for EVERY environment [E] (Unicode identifier tables, Decimal
    parser, class table, importable callables): these are oracle arguments, not assumptions. *)
 From Coq Require Import ZArith List Bool Lia Strings.String.
 From Coq Require Import QArith.
 From VL Require Import Model.Persist Proofs.Persist_proofs Model.BallotFile Proofs.BallotFile_proofs.
+From VL Require Import Model.StvFile Proofs.StvFile_proofs.
 Import ListNotations.
 Open Scope string_scope.
 Open Scope Z_scope.
@@ -163,6 +165,164 @@ Proof.
     eexists. vm_compute. split; reflexivity.
 Qed.
 
+(* ------------------------------------------------------------------ STV files (character level) *)
+(* Model/StvFile.v: a line is a list of code points; [E : uenv] holds what Coq cannot contain (Unicode tables beyond
+   ASCII, Decimal(str)) - every theorem is for EVERY E; [bl] is the BLT reader that a 'ballots=blt' file is handed to. *)
+
+(* ranked ballots without shared ranks with int / Fraction / Decimal weights, the seat count (seats= of a
+   FixedSeatCount or the n_seats argument), candidate names, withdrawn flags, the optional title and the evaluator
+   (quota, mandatory quota, tie-breaker) written by dump_lines load back unchanged - through the lines, whatever
+   follows the 'end' line, and through the text of dumps / loads: for EVERY well-formed election *)
+Theorem C19_stv_roundtrip : forall E e, stv_wf E e = true ->
+  exists x ls, stv_expected E e = Some x /\ stv_dump_lines E false e = WOk ls /\
+               (forall bl junk, stv_load_lines E false bl (ls ++ junk) = Ok x) /\
+               (forall bl, stv_loads E false bl (dumps_text ls) = Ok x).
+Proof.
+  intros E e Hwf. destruct (stv_roundtrip E e Hwf) as [x [ls [Hx [Hd Hl]]]].
+  destruct (stv_roundtrip_text E e Hwf) as [x' [ls' [Hx' [Hd' Hl']]]].
+  rewrite Hx in Hx'. inversion Hx'; subst x'. rewrite Hd in Hd'. inversion Hd'; subst ls'.
+  exists x, ls. repeat split; assumption.
+Qed.
+
+(* the only condition stv_wf puts on nicknames concerns initials beyond ASCII: for an ASCII name it holds by itself *)
+Theorem C19_stv_wf_ascii_names : forall E nm, forallb (fun c => c <? 128) nm = true ->
+  forallb nick_char_ok (name_to_initials E nm) = true.
+Proof. exact ascii_initials_ok. Qed.
+
+(* on EVERY list of lines / every text the reader returns an election or STVParseError - no other exception -
+   provided the BLT reader it delegates to does *)
+Theorem C19_stv_parse_total : forall E bl ls, (forall r, no_crash (bl r)) ->
+  (exists x, stv_load_lines E false bl ls = Ok x) \/ stv_load_lines E false bl ls = ParseError.
+Proof.
+  intros E bl ls Hbl. pose proof (stv_load_lines_total E bl ls Hbl) as H.
+  destruct (stv_load_lines E false bl ls) as [x| |e]; [left; exists x; reflexivity|right; reflexivity|contradiction].
+Qed.
+
+(* ... and the BLT reader of Model/BallotFile.v does, whatever splits its lines into tokens *)
+Theorem C19_stv_parse_total_text : forall E (lex : str -> line) oneplus text,
+  let bl := fun r => load_lines false oneplus (map lex r) in
+  (exists x, stv_loads E false bl text = Ok x) \/ stv_loads E false bl text = ParseError.
+Proof.
+  intros E lex op text bl. unfold stv_loads. apply C19_stv_parse_total. intros r. apply load_lines_total.
+Qed.
+
+(* never partial data, 1: what a file with a ballot count yields does not depend on anything after its 'end' line -
+   a truncated text is rejected or gives the very same election *)
+Theorem C19_stv_prefix_stable : forall E bl ls x, stv_load_lines E false bl ls = Ok x -> stv_mode E ls = true ->
+  forall bl' junk, stv_load_lines E false bl' (ls ++ junk) = Ok x.
+Proof. exact stv_prefix_stable. Qed.
+
+Theorem C19_stv_truncation : forall E bl ls k x y, stv_load_lines E false bl ls = Ok x ->
+  stv_load_lines E false bl (firstn k ls) = Ok y -> stv_mode E (firstn k ls) = true -> y = x.
+Proof.
+  intros E bl ls k x y Hx Hy Hm. pose proof (stv_prefix_stable E bl (firstn k ls) y Hy Hm bl (skipn k ls)) as H.
+  rewrite firstn_skipn, Hx in H. inversion H. reflexivity.
+Qed.
+
+(* never partial data, 2: every ranking of a loaded election names candidates of the loaded candidate list *)
+Theorem C19_stv_rankings_complete : forall E (lex : str -> line) oneplus ls x,
+  stv_load_lines E false (fun r => load_lines false oneplus (map lex r)) ls = Ok x ->
+  in_range (List.length (l_pool x)) (l_votes x).
+Proof.
+  intros E lex op ls x H. eapply stv_loaded_in_range; [|exact H]. intros r y Hy. exact (blt_loaded_in_range op (map lex r) y Hy).
+Qed.
+
+(* BLT mode ('method=blt', 'ballots=blt', then the lines of the BLT writer): the STV reader returns what the BLT
+   reader returns - ballots, seat count (as FixedSeatCount), candidates, title; with C19_blt_roundtrip this is the
+   round trip of dump_lines(votes, system=None, ...) up to the splitting of BLT lines into tokens *)
+Theorem C19_stv_blt_mode : forall E bl rest bv bs bc bt, bl rest = Ok (bv, bs, bc, bt) ->
+  stv_load_lines E false bl (blt_mode_lines rest) =
+  Ok {| l_votes := bv;
+        l_system := (match bt with Some t => if nonempty t then Some t else None | None => None end, EvFixed (EvOther true) bs);
+        l_cands := map (fun cw => (cname_str (fst cw), snd cw)) bc;
+        l_pool := map (fun cw => (cname_str (fst cw), snd cw)) bc |}.
+Proof. exact stv_blt_mode_ok. Qed.
+
+(* a non-trivial well-formed election: duplicate names (ordinal nicknames), a withdrawn candidate, an empty ranking,
+   Fraction and Decimal weights, a weight written without multiplier, title, tie-breaker, mandatory quota, seat count *)
+Definition s_250 : str := Eval compute in codes "2.50".
+Definition env1 : uenv :=
+  {| udec := fun _ => None; udigit := fun c => c =? 178; uword := fun c => c =? 233; ulower := fun c => [c];
+     dec_val := fun s => if str_eqb s s_250 then Some (5 # 2) else None |}.
+Definition s_title1 : str := Eval compute in codes "Board = 2024, round 2".
+Definition s_zoe : str := [90; 111; 233; 32; 46; 32; 83; 116; 46; 32; 74; 111; 104; 110].    (* "Zoé . St. John" *)
+Definition example_stv : stv_election :=
+  {| e_votes := [([2; 1]%positive, WQ (3 # 2)); ([3]%positive, WQ (2 # 1)); ([]%list, WQ (1 # 1)); ([1; 3]%positive, WDec s_250);
+                 ([1]%positive, WQ (1 # 1))];
+     e_system := SysVS (Some s_title1)
+                   (EvFixed (EvTie (EvTV false false (-1) true (QNamed s_hare) true) (TbPre true (TbSort (Some 12345)))) 2);
+     e_cands := [(1%positive, s_ann, true); (2%positive, s_ann, false); (3%positive, s_zoe, false)];
+     e_seats := None; e_output_method := true |}.
+Example C19_example_stv_wf : stv_wf env1 example_stv = true.
+Proof. vm_compute. reflexivity. Qed.
+(* ... and one whose nicknames are initials (with a non-ASCII one), seat count given as argument, no title *)
+Definition example_stv2 : stv_election :=
+  {| e_votes := [([3; 1]%positive, WQ (7 # 1))];
+     e_system := SysEv (EvTV false false (-1) true (QNamed s_droop) false);
+     e_cands := [(1%positive, s_ann, false); (3%positive, s_zoe, true)];
+     e_seats := Some 1; e_output_method := true |}.
+Example C19_example_stv2_wf : stv_wf env1 example_stv2 = true /\ candidate_nicks env1 [s_ann; s_zoe] = [[97; 98]; [122; 115; 106]].
+Proof. vm_compute. split; reflexivity. Qed.
+
+(* known finding C19-stv-name-chars (format limitation, delimits stv_wf): header lines have no escaping - a title with
+   '#' is cut there, a name with leading white space loses it; the faithful model reproduces both *)
+Definition s_a_hash_b : str := Eval compute in codes "a#b".
+Definition s_lead : str := Eval compute in codes " lead".
+Theorem C19_stv_name_chars_refuted : exists e x ls y,
+  stv_wf env1 e = false /\ stv_expected env1 e = Some x /\ stv_dump_lines env1 false e = WOk ls /\
+  stv_load_lines env1 false (fun _ => ParseError) ls = Ok y /\
+  fst (l_system x) = Some s_a_hash_b /\ fst (l_system y) = Some [97] /\
+  l_cands x = [(s_lead, false)] /\ l_cands y = [(tl s_lead, false)].
+Proof.
+  exists {| e_votes := [([1]%positive, WQ (2 # 1))]; e_system := SysVS (Some s_a_hash_b) (EvTV false false (-1) true (QNamed s_droop) false);
+            e_cands := [(1%positive, s_lead, false)]; e_seats := None; e_output_method := true |}.
+  eexists. eexists. eexists. vm_compute. repeat split.
+Qed.
+
+(* The tree before the repairs (model flag legacy = true) violates both clauses; each witness is replayed on the
+   implementation by the corpus (corpus/C19/stv-legacy-*.json), the defects are repaired by fixes/C19-stv-*.diff *)
+Theorem C19_stv_title_none_legacy_refuted : exists e x ls y,
+  stv_wf env1 e = true /\ stv_expected env1 e = Some x /\ stv_dump_lines env1 true e = WOk ls /\
+  stv_load_lines env1 true (fun _ => ParseError) ls = Ok y /\ fst (l_system x) = None /\ fst (l_system y) = Some s_None.
+Proof.   (* an untitled system is written with the line 'title=None' *)
+  exists {| e_votes := []; e_system := SysVS None (EvTV false false (-1) true (QNamed s_droop) false);
+            e_cands := [(1%positive, s_ann, false)]; e_seats := None; e_output_method := true |}.
+  eexists. eexists. eexists. vm_compute. repeat split.
+Qed.
+
+Definition lines_of (l : list String.string) : list str := map codes l.
+Theorem C19_stv_isdigit_legacy_refuted :
+  let bl := fun _ : list str => @ParseError loaded in
+  let sup2 := [178] in      (* superscript two: str.isdigit() holds, int() raises ValueError *)
+  stv_load_lines env1 true bl (lines_of ["method=BC"; "quota=droop"] ++ [s_ballots ++ 61 :: sup2])%list = Crash E_VALUE /\
+  stv_load_lines env1 true bl (lines_of ["method=BC"] ++ [s_quota ++ 61 :: sup2] ++ lines_of ["ballots=0"])%list = Crash E_VALUE /\
+  stv_load_lines env1 true bl (lines_of ["method=BC"; "quota=droop"] ++ [s_random ++ 61 :: sup2] ++ lines_of ["ballots=0"])%list = Crash E_VALUE /\
+  stv_load_lines env1 true bl (lines_of ["method=BC"; "quota=droop"; "candidate=a A"; "order=a"; "ballots=1"] ++ [sup2])%list = Crash E_VALUE.
+Proof. vm_compute. repeat split. Qed.
+
+Theorem C19_stv_blt_seats_legacy_refuted : exists ls bl y,
+  bl (skipn 3 ls) = Ok y /\ stv_load_lines env1 true bl ls = Crash E_VALUE /\
+  exists x, stv_load_lines env1 false bl ls = Ok x.
+Proof.   (* 'seats=' before 'ballots=blt': FixedSeatCount was wrapped into FixedSeatCount -> ValueError *)
+  exists (lines_of ["method=blt"; "seats=2"; "ballots=blt"; "1 1"; "1 1 0"; "0"]),
+         (fun _ => Ok ([([1], 1 # 1)], 1, [(Numbered 1, false)], None)).
+  eexists. split; [reflexivity|]. split; [vm_compute; reflexivity|]. eexists. vm_compute. reflexivity.
+Qed.
+
+(* candidate 2371 of an election with ordinal nicknames is nicknamed 'end': a ballot for that candidate alone with
+   weight one was written as the line 'end' and ended the ballot list *)
+Definition many_cands : list cand := map (fun i => (Pos.of_nat i, [67], false)) (seq 1 2371).
+Definition ordinal_end_election : stv_election :=
+  {| e_votes := [([2371]%positive, WQ (1 # 1))]; e_system := SysEv (EvTV false false (-1) true (QNamed s_droop) false);
+     e_cands := many_cands; e_seats := None; e_output_method := true |}.
+Theorem C19_stv_ordinal_end_legacy_refuted :
+  stv_wf env1 ordinal_end_election = true /\
+  match stv_dump_lines env1 true ordinal_end_election with
+  | WOk ls => stv_load_lines env1 true (fun _ => ParseError) ls
+  | _ => Crash 0
+  end = ParseError.
+Proof. split; vm_compute; reflexivity. Qed.
+
 Print Assumptions C19_roundtrip.
 Print Assumptions C19_system_roundtrip.
 Print Assumptions C19_rejects_opaque.
@@ -176,3 +336,16 @@ Print Assumptions C19_blt_parse_total.
 Print Assumptions C19_blt_roundtrip_pinned_refuted.
 Print Assumptions C19_blt_single_candidate_pinned_refuted.
 Print Assumptions C19_blt_parse_total_pinned_refuted.
+Print Assumptions C19_stv_roundtrip.
+Print Assumptions C19_stv_wf_ascii_names.
+Print Assumptions C19_stv_parse_total.
+Print Assumptions C19_stv_parse_total_text.
+Print Assumptions C19_stv_prefix_stable.
+Print Assumptions C19_stv_truncation.
+Print Assumptions C19_stv_rankings_complete.
+Print Assumptions C19_stv_blt_mode.
+Print Assumptions C19_stv_name_chars_refuted.
+Print Assumptions C19_stv_title_none_legacy_refuted.
+Print Assumptions C19_stv_isdigit_legacy_refuted.
+Print Assumptions C19_stv_blt_seats_legacy_refuted.
+Print Assumptions C19_stv_ordinal_end_legacy_refuted.
